@@ -1,10 +1,22 @@
-(* Case-line interpreter for C07.  line: <kind> P <conn>:<isolated token>:<t ms>:<frame hex> ...
-   MODEL: the keyed replay machine (Model/Replay.v) over the interleaved trace -> tokens joined by ','.
-   SPEC : the property itself: packet j of connection c reports what it reports when c runs alone,
-          i.e. the recorded isolated tokens in trace order. *)
-From Coq Require Import List NArith Bool.
+(* Case-line interpreter for C07.
+   kind P:  <a> P <conn>:<isolated token>:<t ms>:<frame hex> ...
+     MODEL: the keyed replay machine (Model/Replay.v) over the interleaved trace -> tokens joined by ','.
+     SPEC : the property itself: packet j of connection c reports what it reports when c runs alone,
+            i.e. the recorded isolated tokens in trace order.
+   kinds L (TLS analyzer) and T (TCP analyzer):  <a> L|T <cap> <conn>:<t ms>:<frame hex> ...
+     MODEL: the CONCRETE packet-level model (Model/TlsAnalyzer.v resp. Model/TcpAnalyzer.v with the MTU table
+            of Gen/Mtu.v) with a table of capacity <cap>, fresh state, on the frames in trace order; for T
+            <t ms> is the clock reading taken while the packet is processed.  One token per packet, joined
+            by ';':   L:  ERR | - | <src hex>:<port>><dst hex>:<port>|<EC08 packet-level line, '|' for ' '>
+                      T:  ERR | <EC03 result line> up=<EC19 uptime token>
+     SPEC : the property: every packet reports what it reports when the packets of its connection <conn>
+            are run ALONE (fresh state, same capacity) through the same concrete model; `-` when the trace
+            does not stay within capacity (the property has that hypothesis).
+   <a> (t|l|h|u) names the analyzer for the harness and is not read here. *)
+From Coq Require Import List NArith ZArith Bool.
 From Coq Require Import Strings.Byte.
-From HN Require Import Base.Bytes Base.Keyed Model.Replay.
+From HN Require Import Base.Bytes Base.Keyed Model.Replay Model.TlsAnalyzer Gen.Mtu.
+From HN Require Model.TcpAnalyzer.
 Import ListNotations.
 
 Fixpoint parse_packets (ts : list bytes) : option (list rpacket) :=
@@ -16,16 +28,86 @@ Fixpoint parse_packets (ts : list bytes) : option (list rpacket) :=
       | _, _ => None end
   end.
 
+(* ---- concrete kinds ---- *)
+(* <conn>:<t ms>:<frame hex> *)
+Fixpoint parse_events (ts : list bytes) : option (list (N * (N * bytes))) :=
+  match ts with
+  | [] => Some []
+  | t :: r =>
+      match fsplit_on ":"%byte t, parse_events r with
+      | [c; tm; h], Some es =>
+          match read_N c, read_N tm, read_hex h with
+          | Some n, Some t', Some f => Some ((n, (t', f)) :: es)
+          | _, _, _ => None end
+      | _, _ => None end
+  end.
+
+Fixpoint count_N (c : N) (l : list N) : nat :=
+  match l with [] => O | x :: r => if N.eqb x c then S (count_N c r) else count_N c r end.
+Fixpoint nodup_N (l : list N) (seen : list N) : list N :=
+  match l with
+  | [] => []
+  | x :: r => if existsb (N.eqb x) seen then nodup_N r seen else x :: nodup_N r (x :: seen)
+  end.
+Fixpoint lookup_N {A} (c : N) (t : list (N * A)) (d : A) : A :=
+  match t with [] => d | (k, v) :: r => if N.eqb k c then v else lookup_N c r d end.
+(* each packet's token when its connection runs alone, in trace order *)
+Fixpoint alone_in_order (table : list (N * list bytes)) (conns seen : list N) : list bytes :=
+  match conns with
+  | [] => []
+  | c :: r => nth (count_N c seen) (lookup_N c table []) (bs "?") :: alone_in_order table r (c :: seen)
+  end.
+Definition spec_alone {E} (run_tokens : list E -> list bytes) (evs : list (N * E)) : bytes :=
+  let conns := map fst evs in
+  let table := map (fun c => (c, run_tokens (map snd (filter (fun e => N.eqb (fst e) c) evs)))) (nodup_N conns []) in
+  join (bs ";") (alone_in_order table conns []).
+
+Definition tls_tokens (cap : N) (fs : list (N * bytes)) : list bytes :=
+  map tls_out_line (snd (tls_run cap [] (map snd fs))).
+Definition tcp_events (es : list (N * bytes)) : list TcpAnalyzer.tcp_event :=
+  map (fun e => (snd e, Z.of_N (fst e))) es.
+Definition tcp_tokens (cap : N) (es : list (N * bytes)) : list bytes :=
+  map TcpAnalyzer.tcp_out_line (snd (TcpAnalyzer.tcp_run mtu_table cap [] (tcp_events es))).
+
+Definition run_concrete (k c : bytes) (rest : list bytes) : bytes :=
+  match read_N c, parse_events rest with
+  | Some cap, Some evs =>
+      if bytes_eqb k (bs "L") then
+        out3 (join (bs ";") (tls_tokens cap (map snd evs)))
+             (if tls_within_capacityb cap [] (map (fun e => snd (snd e)) evs) then spec_alone (tls_tokens cap) evs else bs "-")
+             false
+      else
+        out3 (join (bs ";") (tcp_tokens cap (map snd evs)))
+             (if TcpAnalyzer.tcp_within_capacityb mtu_table cap [] (tcp_events (map snd evs))
+              then spec_alone (tcp_tokens cap) evs else bs "-")
+             false
+  | _, _ => bs "BADCASE" end.
+
 Definition run_line (l : bytes) : bytes :=
   match fsplit_on sp l with
   | _ :: p :: rest =>
-      if negb (bytes_eqb p (bs "P")) then bs "BADCASE" else
-      match parse_packets rest with
-      | Some tr => out3 (join (bs ",") (map snd (replay_run tr))) (join (bs ",") (map snd tr)) false
-      | None => bs "BADCASE" end
+      if bytes_eqb p (bs "P") then
+        match parse_packets rest with
+        | Some tr => out3 (join (bs ",") (map snd (replay_run tr))) (join (bs ",") (map snd tr)) false
+        | None => bs "BADCASE" end
+      else if bytes_eqb p (bs "L") || bytes_eqb p (bs "T") then
+        match rest with
+        | c :: evs => run_concrete p c evs
+        | [] => bs "BADCASE" end
+      else bs "BADCASE"
   | _ => bs "BADCASE" end.
 
 Example run_line_ex : run_line (bs "l P 0:aa:1:00 1:-:2:00 0:-:3:00") = bs "aa,-,-	aa,-,-	0".
+Proof. vm_compute. reflexivity. Qed.
+
+(* concrete kinds: a SYN and, 335 ms later, the ACK of the same connection (1000 Hz timestamp clock) *)
+Example run_line_ex_T :
+  run_line (bs "t T 8 3:1000484:02000000000102000000000208004500003c12344000390600000a0100775db8d829757d00162f01a6ae00000000a002721000000000020405780402080a0010210b0000000001030307 3:1000819:02000000000102000000000208004500003412344000400600000a0100775db8d829757d00162f01a6af5a88adb08010ffff000000000101080a0010225a005985b8")
+  = bs "syn=4:57+7:0:1400:mtu*20,7:mss,sok,ts,nop,ws:df,id+:0 synack=- mtu=1440 link=67656e657269632074756e6e656c206f722056504e up=-;syn=- synack=4:64+0:0:*:65535,*:nop,nop,ts:df,id+:0 mtu=- link=- up=client 1000 0 0 17 49	syn=4:57+7:0:1400:mtu*20,7:mss,sok,ts,nop,ws:df,id+:0 synack=- mtu=1440 link=67656e657269632074756e6e656c206f722056504e up=-;syn=- synack=4:64+0:0:*:65535,*:nop,nop,ts:df,id+:0 mtu=- link=- up=client 1000 0 0 17 49	0".
+Proof. vm_compute. reflexivity. Qed.
+Example run_line_ex_L :
+  run_line (bs "l L 8 3:1000484:02000000000102000000000208004500003c12344000390600000a0100775db8d829757d00162f01a6ae00000000a002721000000000020405780402080a0010210b0000000001030307 3:1000819:02000000000102000000000208004500003412344000400600000a0100775db8d829757d00162f01a6af5a88adb08010ffff000000000101080a0010225a005985b8")
+  = bs "-;-	-;-	0".
 Proof. vm_compute. reflexivity. Qed.
 
 Require Extraction.
